@@ -4,5 +4,6 @@ CONSTANTS Variant = "ok"
  MinN = 3
  MaxN = 6
  MaxV = 4
+ MaxRedel = 0
 INVARIANTS Emit
 CHECK_DEADLOCK FALSE
